@@ -243,6 +243,91 @@ Proof.
     + apply in_map_iff in Hin as [e' [<- Hin]]. apply inner_range in Hin. unfold swap in He. cbn [fst snd] in He. lia.
 Qed.
 
+(* ------------------------------------------------------------------ the refined surface is simple again *)
+(* the two kinds of new triangles, named by a corner (P,Q,R) of an old face: its centre triangle, and the triangle
+   cut off at the vertex Q *)
+Definition centre_tri (c : Z * Z * Z) : list Z :=
+  let '(P0, Q, R) := c in [m (P0, Q); m (Q, R); m (R, P0)].
+Definition corner_tri (c : Z * Z * Z) : list Z :=
+  let '(P0, Q, R) := c in [Q; m (Q, R); m (P0, Q)].
+
+Lemma loop_tris_kinds A B C T :
+  In T (loop_tris A B C (m (A, B)) (m (B, C)) (m (C, A))) ->
+  exists c, In c (tri_corners [A; B; C]) /\ (T = centre_tri c \/ T = corner_tri c).
+Proof.
+  cbn. intros [<-|[<-|[<-|[<-|[]]]]].
+  - exists (A, B, C). cbn. auto.
+  - exists (C, A, B). cbn. auto.
+  - exists (A, B, C). cbn. auto.
+  - exists (B, C, A). cbn. auto.
+Qed.
+
+Definition new_faces : list (list Z) :=
+  flat_map (fun F => match F with [A; B; C] => loop_tris A B C (m (A, B)) (m (B, C)) (m (C, A)) | _ => [] end) (rf r).
+
+Lemma new_face_kind T : In T new_faces -> exists c, In c (all_corners (rf r)) /\ (T = centre_tri c \/ T = corner_tri c).
+Proof.
+  unfold new_faces. intros H. apply in_flat_map in H as [F [HF HT]].
+  pose proof all_tri_len as Hl. rewrite Forall_forall in Hl. destruct (tri_shape F (Hl F HF)) as [A [B [C ->]]].
+  destruct (loop_tris_kinds A B C T HT) as [c [Hc Hk]]. exists c. split; auto.
+  unfold all_corners. apply in_flat_map. eauto.
+Qed.
+
+(* rotating a corner of an old face gives a corner of the same face *)
+Lemma corner_rot A B C : In (A, B, C) (all_corners (rf r)) -> In (B, C, A) (all_corners (rf r)) /\ In (C, A, B) (all_corners (rf r)).
+Proof.
+  intros H. destruct (corner_spec _ _ _ _ H) as [F [HF Hc]].
+  pose proof all_tri_len as Hl. rewrite Forall_forall in Hl. destruct (tri_shape F (Hl F HF)) as [X [Y [Z ->]]].
+  split; unfold all_corners; apply in_flat_map; exists [X; Y; Z]; (split; [exact HF|]);
+    cbn in Hc |- *; destruct Hc as [E|[E|[E|[]]]]; inversion E; subst; auto.
+Qed.
+
+Lemma inner_In c : In c (all_corners (rf r)) -> In (corner_edge c) (flat_map (inner m) (rf r)).
+Proof. intros H. rewrite inner_all. now apply in_map. Qed.
+
+(* directed edges of a centre triangle are interior edges *)
+Lemma centre_dedges c e : In c (all_corners (rf r)) -> In e (dedges (centre_tri c)) -> In e (flat_map (inner m) (rf r)).
+Proof.
+  destruct c as [[P0 Q] R]. intros Hc He. destruct (corner_rot _ _ _ Hc) as [H1 H2].
+  cbn in He. destruct He as [<-|[<-|[<-|[]]]].
+  - apply (inner_In (P0, Q, R)); auto.
+  - apply (inner_In (Q, R, P0)); auto.
+  - apply (inner_In (R, P0, Q)); auto.
+Qed.
+
+Lemma mid_high a b : In (a, b) D -> nV r <= m (a, b).
+Proof. intros H. pose proof (m_range r m Hm _ H). lia. Qed.
+
+Theorem loop_new_simple : simple_tri new_faces.
+Proof.
+  intros X Y Z H H'. destruct (corner_spec _ _ _ _ H) as [T [HT Hc]]. destruct (corner_spec _ _ _ _ H') as [T' [HT' Hc']].
+  destruct (new_face_kind T HT) as [[[P0 Q] R] [Hk [->| ->]]]; destruct (new_face_kind T' HT') as [[[P0' Q'] R'] [Hk' [->| ->]]].
+  - (* centre, centre: X->Y is interior in one and Y->X in the other *)
+    assert (E1 : In (X, Y) (dedges (centre_tri (P0, Q, R)))) by (cbn in Hc |- *; destruct Hc as [E|[E|[E|[]]]]; inversion E; subst; auto).
+    assert (E2 : In (Y, X) (dedges (centre_tri (P0', Q', R')))) by (cbn in Hc' |- *; destruct Hc' as [E|[E|[E|[]]]]; inversion E; subst; auto).
+    apply centre_dedges in E1; auto. apply centre_dedges in E2; auto.
+    apply (inner_not_swapped _ E1). apply in_map_iff. exists (Y, X). auto.
+  - (* centre, corner: the corner triangle has an old vertex, the centre triangle has none *)
+    destruct (corner_facts _ _ _ Hk) as [_ [_ [_ [I1 [I2 I3]]]]]. destruct (corner_facts _ _ _ Hk') as [_ [_ [_ [I1' [I2' I3']]]]].
+    pose proof (mid_high _ _ I1). pose proof (mid_high _ _ I2). pose proof (mid_high _ _ I3).
+    destruct (D_edge _ _ I2') as [_ [VQ _]]. unfold vert_ok in VQ.
+    cbn in Hc, Hc'. destruct Hc as [E|[E|[E|[]]]]; inversion E; subst; destruct Hc' as [E'|[E'|[E'|[]]]]; inversion E'; subst; lia.
+  - destruct (corner_facts _ _ _ Hk) as [_ [_ [_ [I1 [I2 I3]]]]]. destruct (corner_facts _ _ _ Hk') as [_ [_ [_ [I1' [I2' I3']]]]].
+    pose proof (mid_high _ _ I1'). pose proof (mid_high _ _ I2'). pose proof (mid_high _ _ I3').
+    destruct (D_edge _ _ I2) as [_ [VQ _]]. unfold vert_ok in VQ.
+    cbn in Hc, Hc'. destruct Hc as [E|[E|[E|[]]]]; inversion E; subst; destruct Hc' as [E'|[E'|[E'|[]]]]; inversion E'; subst; lia.
+  - (* corner, corner: the midpoint-midpoint edge of one would be the reverse of that of the other *)
+    destruct (corner_facts _ _ _ Hk) as [_ [_ [_ [I1 [I2 I3]]]]]. destruct (corner_facts _ _ _ Hk') as [_ [_ [_ [I1' [I2' I3']]]]].
+    pose proof (mid_high _ _ I1). pose proof (mid_high _ _ I2). pose proof (mid_high _ _ I1'). pose proof (mid_high _ _ I2').
+    destruct (D_edge _ _ I2) as [_ [VQ _]]. destruct (D_edge _ _ I2') as [_ [VQ' _]]. unfold vert_ok in VQ, VQ'.
+    assert (J : In (m (P0, Q), m (Q, R)) (flat_map (inner m) (rf r))) by (apply (inner_In (P0, Q, R)); auto).
+    assert (J' : In (m (P0', Q'), m (Q', R')) (flat_map (inner m) (rf r))) by (apply (inner_In (P0', Q', R')); auto).
+    assert (Esw : (m (P0, Q), m (Q, R)) = (m (Q', R'), m (P0', Q'))).
+    { cbn in Hc, Hc'. destruct Hc as [E|[E|[E|[]]]]; inversion E; subst; destruct Hc' as [E'|[E'|[E'|[]]]]; inversion E'; subst;
+        first [lia | congruence]. }
+    apply (inner_not_swapped _ J). apply in_map_iff. exists (m (P0', Q'), m (Q', R')). split; [unfold swap; cbn [fst snd]; congruence|exact J'].
+Qed.
+
 End LoopManifold.
 
 (* ------------------------------------------------------------------ one refinement of loop_subdivision on the model *)
@@ -305,6 +390,76 @@ Proof.
     + intros E. destruct (K _ _ _ _ D1 D2 E) as [[? ?]|[? ?]]; congruence.
     + intros E. destruct (K _ _ _ _ D2 D3 E) as [[? ?]|[? ?]]; congruence.
     + intros E. destruct (K _ _ _ _ D3 D1 E) as [[? ?]|[? ?]]; congruence.
+Qed.
+
+(* ------------------------------------------------------------------ simple again, iteration, the whole operation *)
+Lemma loop_step_new_faces r r' :
+  loop_step O r = Ok r' -> rf r' = new_faces r (mid_of r).
+Proof.
+  unfold loop_step. intros H. apply bind_Ok in H as [ms [_ H]]. apply bind_Ok in H as [fe [Hfe H]].
+  inversion H; subst r'; clear H. cbn [rf]. apply mapM_Forall2 in Hfe. unfold new_faces.
+  induction Hfe as [|F p l l' HFp _ IH]; [reflexivity|]. cbn [flat_map]. rewrite IH. f_equal.
+  unfold loop_face in HFp. destruct F as [|A [|B [|C [|? ?]]]]; try discriminate. unfold loop_keys in HFp.
+  apply bind_Ok in HFp as [m1 [H1 HFp]]. apply bind_Ok in HFp as [m2 [H2 HFp]]. apply bind_Ok in HFp as [m3 [H3 HFp]].
+  inversion HFp; subst p. cbn [fst]. unfold mid_of, mf. rewrite !keyE_pair.
+  now rewrite (hget_hv _ _ _ H1), (hget_hv _ _ _ H2), (hget_hv _ _ _ H3).
+Qed.
+
+Theorem loop_step_simple r r' :
+  loop_step O r = Ok r' ->
+  Forall (covered (re r)) (rf r) -> oriented_tri (nV r) (rf r) -> simple_tri (rf r) -> simple_tri (rf r').
+Proof.
+  intros H Hc Hor Hs. rewrite (loop_step_new_faces r r' H). apply loop_new_simple; auto. now apply mid_of_ok.
+Qed.
+
+Lemma oriented_all_tri n (r : raw) : oriented_tri n (rf r) -> all_tri r.
+Proof. intros [_ H]. unfold all_tri. eapply Forall_impl; [|exact H]. intros F [L _]. exact L. Qed.
+
+Theorem loop_iter_manifold n : forall r r',
+  iter_res n (loop_step O) r = Ok r' ->
+  WF r -> oriented_tri (nV r) (rf r) -> simple_tri (rf r) ->
+  WF r' /\ oriented_tri (nV r') (rf r') /\ simple_tri (rf r').
+Proof.
+  induction n as [|n IH]; intros r r' H HW Hor Hs; cbn [iter_res] in H.
+  - inversion H; subst. auto.
+  - apply bind_Ok in H as [r1 [H1 H]].
+    destruct (loop_step_accepts O r HW (oriented_all_tri _ _ Hor)) as [r1' [H1' [HW1 _]]].
+    rewrite H1 in H1'. inversion H1'; subst r1'. destruct HW as [_ [_ Hc]].
+    apply (IH r1 r' H HW1).
+    + eapply loop_step_oriented; eauto.
+    + eapply loop_step_simple; eauto.
+Qed.
+
+(* on a triangle surface the preliminary triangulate() changes nothing *)
+Lemma triangulate_tri_id (r : raw) : all_tri r -> triangulate O r = Ok r.
+Proof.
+  intros Ht. unfold triangulate.
+  assert (H : forall l, (forall i, In i l -> 0 <= i < Zlen (rf r)) ->
+             foldM (fun r0 f => F <- getz (rf r0) f ;; if tri_needs (Zlen F) then triangulate_face O r0 f else Ok r0) l r = Ok r).
+  { induction l as [|i l IH]; intros Hl; cbn [foldM]; [reflexivity|].
+    destruct (getz_total (rf r) i (Hl i (or_introl eq_refl))) as [F HF]. rewrite HF. cbn [bind].
+    unfold all_tri in Ht. rewrite Forall_forall in Ht. rewrite (Ht F (getz_In _ _ _ HF)). cbn. apply IH. intros j Hj. apply Hl. now right. }
+  apply H. intros i Hi. now apply In_zrange in Hi.
+Qed.
+
+Lemma iter_replacing n (s s' : @sstate P) :
+  iter_res n (fun s => replacing s (loop_step O)) s = Ok s' -> iter_res n (loop_step O) (cur s) = Ok (cur s').
+Proof.
+  revert s. induction n as [|n IH]; intros s H; cbn [iter_res] in *; [inversion H; subst; reflexivity|].
+  apply bind_Ok in H as [s1 [H1 H]]. unfold replacing in H1. apply bind_Ok in H1 as [r1 [Hr1 H1]]. inversion H1; subst s1; clear H1.
+  rewrite Hr1. cbn [bind]. apply (IH _ H).
+Qed.
+
+(* loop_subdivision(n) as a whole, on an oriented simple triangle surface *)
+Theorem loop_operation_manifold (s s' : @sstate P) n :
+  sstep O s (Loop n) = Ok s' ->
+  WF (cur s) -> oriented_tri (nV (cur s)) (rf (cur s)) -> simple_tri (rf (cur s)) ->
+  WF (cur s') /\ oriented_tri (nV (cur s')) (rf (cur s')) /\ simple_tri (rf (cur s')).
+Proof.
+  cbn [sstep]. intros H HW Hor Hs. apply bind_Ok in H as [s1 [H1 H]].
+  unfold in_place in H1. rewrite (triangulate_tri_id (cur s) (oriented_all_tri _ _ Hor)) in H1. cbn [bind] in H1.
+  inversion H1; subst s1; clear H1. apply iter_replacing in H. cbn [cur] in H.
+  apply (loop_iter_manifold _ _ _ H); auto.
 Qed.
 
 End LoopStep.
